@@ -156,7 +156,7 @@ func populate(n *Node, d *DAG, has map[cid.Cid]bool) {
 func (s *c02) Build(w *World) {
 	t := w.Tape
 	drawProfile(w)
-	s.dag = GenDAG(t, GenCfg{MaxBlocks: 3 + t.Draw(22), MaxDepth: 2 + t.Draw(4), BlockPad: []int{0, 0, 40, 600}[t.Draw(4)], Share: []int{0, 100, 300}[t.Draw(3)], Identity: []int{0, 0, 60}[t.Draw(3)], Empty: []int{0, 0, 80}[t.Draw(3)]})
+	s.dag = GenDAG(t, GenCfg{MaxBlocks: 3 + t.Draw(22), MaxDepth: 2 + t.Draw(4), BlockPad: []int{0, 0, 40, 600}[t.Draw(4)], Share: []int{0, 100, 300}[t.Draw(3)], Identity: []int{0, 0, 60}[t.Draw(3)], Empty: []int{0, 0, 80}[t.Draw(3)], Alias: []int{0, 0, 100}[t.Draw(3)]})
 	s.sel, s.selDesc = GenSelector(t, 8)
 	s.split = GenSplit(t, s.dag)
 	cfg := NodeCfg{GateReads: true, GateCommits: true}
